@@ -122,6 +122,9 @@ func Same[T any](a, b T) bool { return false }
 func CallTarget(args ...any)           {}
 func CallTargetR[R any](args ...any) R { var z R; return z }
 
+// CallTargetR2 is the variant for a target with two results.
+func CallTargetR2[A, B any](args ...any) (A, B) { var a A; var b B; return a, b }
+
 // FreeVar: the value of the variable named name captured by the closure under contract.
 func FreeVar[T any](name string) T { var z T; return z }
 
